@@ -289,6 +289,22 @@ pub fn run(run: &Run) {
         };
         check_pair(run, p, &x, &y, l)
     });
+    // long inputs: each stress string against its lower-cased / width-mapped / space-varied respelling
+    let pl: Vec<&str> = PAYLOADS_SPACE.iter().chain(PAYLOADS_FREE.iter()).chain(PAYLOADS_USER.iter()).copied().collect();
+    stress(run, "alignment_and_runs", &pl, &|s, l| {
+        let lower = ref_lower(s);
+        let upper: String = s.chars().flat_map(|c| c.to_uppercase()).collect();
+        let spaced = s.replace(' ', "\u{2003}");
+        for p in PROFS {
+            for b in [&lower, &upper, &spaced] {
+                if let Err(v) = check_pair(run, p, s, b, l) {
+                    run.violate(v);
+                    return false;
+                }
+            }
+        }
+        true
+    });
     let mk_triples = || {
         (0..4usize).prop_flat_map(|pi| {
             let p = PROFS[pi];
